@@ -53,7 +53,7 @@ def analyze(ctx, wdir, flags="", sequential=False, trace=None, race=False, repea
         args += ["-init-embedded"]
     if not tests:
         args += ["-tests=false"]
-    r = ctx.run_vh(args, race=race, check=False, env={"GORACE": "halt_on_error=0"}, timeout=1800)
+    r = ctx.run_vh(args, race=race, check=False, env={"GORACE": "halt_on_error=0"}, timeout=3000)
     res = json.load(open(outp)) if os.path.exists(outp) else None
     return r, res
 
@@ -92,4 +92,61 @@ def concurrent_runs(ctx, w, thorough):
             raise vlib.Infra("race-built analyzer run failed: %s" % rr.stderr[-1500:])
         elif res["runs"][0].get("diags") != ds:
             ctx.fail("AnalyzerParallelDiffers race-build", "race-built parallel run differs from sequential run", {})
+    # twin packages: the example files of every checker in two packages, so that two instances of every checker work on the same
+    # kind of subject at the same time (state shared between instances shows up as a race or as a differing result)
+    tw = twin_workspace(ctx, every=1 if thorough else 6)
+    r3, seq3 = analyze(ctx, tw, flags="enable-all=true", sequential=True, tests=False)
+    rr3, par3 = analyze(ctx, tw, flags="enable-all=true", race=True, repeat=2, tests=False)
+    out["twin_packages"] = len(os.listdir(tw)) - 1
+    if "DATA RACE" in rr3.stderr:
+        k = rr3.stderr.index("DATA RACE")
+        ctx.fail("DataRace analyzer", "race detector report with parallel analyzer passes over twin packages: %s" % rr3.stderr[k:k + 1500], {})
+    elif seq3 is None or par3 is None:
+        raise vlib.Infra("analyzer run on the twin workspace failed: %s %s" % (r3.stderr[-800:], rr3.stderr[-800:]))
+    elif par3["runs"][0].get("panic"):
+        ctx.fail("AnalyzerPanic", "analyzer panicked on the twin workspace: %s" % par3["runs"][0]["panic"], {})
+    elif any(run.get("diags") != seq3["runs"][0].get("diags") for run in par3["runs"]):
+        ctx.fail("AnalyzerParallelDiffers twin", "parallel passes over twin packages differ from sequential passes", {})
     return out
+
+
+def twin_workspace(ctx, every=1):
+    """Every example directory of the repository (quick tier: every sixth, rotated by the seed) twice (a/b) in one module;
+    directories that do not build on their own are left out."""
+    import re
+    import shutil
+    import subprocess
+    d = os.path.join(ctx.scratch, "twin_ws")
+    if os.path.exists(d):
+        return d
+    os.makedirs(d)
+    open(os.path.join(d, "go.mod"), "w").write("module example.com/twin\n\ngo 1.21\n")
+    td = os.path.join(vlib.REPO, "checkers", "testdata")
+    for idx, name in enumerate(sorted(os.listdir(td))):
+        src = os.path.join(td, name)
+        if name.startswith("_") or not os.path.isdir(src) or idx % every != ctx.seed % every:
+            continue
+        files = [f for f in os.listdir(src) if f.endswith(".go") and not f.endswith("_test.go")]
+        if not files or any(os.path.isdir(os.path.join(src, f)) for f in os.listdir(src)):
+            continue
+        for suffix in ("a", "b"):
+            pd = os.path.join(d, "%s_%s" % (name.lower(), suffix))
+            os.makedirs(pd)
+            for f in files:
+                txt = open(os.path.join(src, f)).read()
+                txt = re.sub(r"^package \w+", "package %s%s" % (re.sub(r"\W", "", name.lower()), suffix), txt, count=1, flags=re.M)
+                open(os.path.join(pd, f), "w").write(txt)
+    for attempt in range(6):
+        r = subprocess.run(["go", "build", "./..."], cwd=d, env=vlib.goenv(), capture_output=True, text=True)
+        if r.returncode == 0:
+            break
+        bad = set(re.findall(r"^# example\.com/twin/(\S+)", r.stderr, re.M)) | set(re.findall(r"^(\w+)/\S+\.go:\d+", r.stderr, re.M))
+        if not bad:
+            raise vlib.Infra("twin workspace does not build: " + r.stderr[-800:])
+        for b in bad:
+            shutil.rmtree(os.path.join(d, b), ignore_errors=True)
+    else:
+        raise vlib.Infra("twin workspace does not build after pruning: " + r.stderr[-800:])
+    if len(os.listdir(d)) < 60 // every:
+        raise vlib.Infra("twin workspace has only %d packages" % (len(os.listdir(d)) - 1))
+    return d
